@@ -157,6 +157,7 @@ type vc6Obs struct {
 
 var vc6Root = cid.MustParse("bafyreics5uul5lbtxslcigtoa5fkba7qgwu7cyb7ih7z6fzsh4lgfgraau")
 var vc6DirSeq atomic.Int64
+var vc6Seen = map[string]bool{}
 
 type vc6Files struct {
 	Log   []byte
@@ -429,11 +430,18 @@ func vc6CoqSmall(c vc6Consts, r vc6Run, obs []vc6Obs, xr string) string {
 	return fmt.Sprintf("(%s, %s, %s, %s)%%N", vc6CoqPrm(c, r.Rank), vh.CoqList(hs), vh.CoqList(os_), xr)
 }
 
-// big case: an entry is the number of its push (the Go oracle has compared all fields)
+// big case: an entry is the number of its push (the Go oracle has compared all fields). Run-length encoded:
+// history = runs (count, slot, keys) of consecutive pushes with the same slot and keys (push numbers are
+// consecutive from 1); an observed list = ranges (from, to) of consecutive push numbers, descending or ascending.
 func vc6CoqBig(c vc6Consts, r vc6Run, obs []vc6Obs) string {
 	var hs []string
-	for _, p := range r.Hist {
-		hs = append(hs, fmt.Sprintf("(%d,%s,%d)", p.Slot, vc6CoqKeys(p.Keys), p.ID))
+	for i := 0; i < len(r.Hist); {
+		j := i + 1
+		for j < len(r.Hist) && r.Hist[j].Slot == r.Hist[i].Slot && fmt.Sprint(r.Hist[j].Keys) == fmt.Sprint(r.Hist[i].Keys) && r.Hist[j].ID == r.Hist[j-1].ID+1 {
+			j++
+		}
+		hs = append(hs, fmt.Sprintf("(%d,%d,%s)", j-i, r.Hist[i].Slot, vc6CoqKeys(r.Hist[i].Keys)))
+		i = j
 	}
 	idOf := vc6IDMap(r.Hist)
 	var os_ []string
@@ -442,11 +450,23 @@ func vc6CoqBig(c vc6Consts, r vc6Run, obs []vc6Obs) string {
 			os_ = append(os_, fmt.Sprintf("(%d,None)", o.Key))
 			continue
 		}
-		var es []string
-		for _, e := range o.Got {
-			es = append(es, strconv.Itoa(idOf(e)))
+		ids := make([]int, len(o.Got))
+		for i, e := range o.Got {
+			ids[i] = idOf(e)
 		}
-		os_ = append(os_, fmt.Sprintf("(%d,Some %s)", o.Key, vh.CoqList(es)))
+		var rs []string
+		for i := 0; i < len(ids); {
+			j := i + 1
+			if j < len(ids) && (ids[j] == ids[i]-1 || ids[j] == ids[i]+1) {
+				step := ids[j] - ids[i]
+				for j < len(ids) && ids[j] == ids[j-1]+step {
+					j++
+				}
+			}
+			rs = append(rs, fmt.Sprintf("(%d,%d)", ids[i], ids[j-1]))
+			i = j
+		}
+		os_ = append(os_, fmt.Sprintf("(%d,Some %s)", o.Key, vh.CoqList(rs)))
 	}
 	return fmt.Sprintf("(%s, %s, %s)%%N", vc6CoqPrm(c, r.Rank), vh.CoqList(hs), vh.CoqList(os_))
 }
@@ -603,9 +623,13 @@ func TestVerif_C06(t *testing.T) {
 			mode = "shrunk"
 		}
 	}
-	part := mode
+	// part names sort so that the small-scope report (with the shortest failing histories) is read first
+	part := map[string]string{"shrunk": "gsfa_a_shrunk", "real": "gsfa_b_real"}[mode]
+	if part == "" {
+		part = "gsfa_c_" + mode
+	}
 	if tag := os.Getenv("VERIF_C06_TAG"); tag != "" {
-		part = mode + tag
+		part += tag
 	}
 	rule := "write -> Close -> NewGsfaReader.Get for every address of the history = entries pushed for it, newest first, each once (all four fields compared); "
 	if mode == "shrunk" {
@@ -828,6 +852,10 @@ func vc6Do(rep *vh.Report, cst vc6Consts, j vc6Job, small, big *vh.CasesFile, mu
 		total += len(es)
 	}
 	if total <= 80 {
+		if !vh.Thorough() && j.category == "exhaustive" && len(j.run.Hist) >= 7 && (len(j.run.Hist)*7+int(j.run.Seed))%5 != 0 {
+			rep.Count("oracle-only (quick tier: 1 in 5 of the exhaustive histories of length 7..8 goes to the Coq run)")
+			return
+		}
 		xr := "None"
 		mu.Lock()
 		doXR := files != nil && *nXR < maxXR
@@ -842,7 +870,16 @@ func vc6Do(rep *vh.Report, cst vc6Consts, j vc6Job, small, big *vh.CasesFile, mu
 				rep.Count("cross-read:model reader on the Go-written linked log")
 			}
 		}
-		small.Add(vc6CoqSmall(cst, j.run, obs, xr))
+		term := vc6CoqSmall(cst, j.run, obs, xr)
+		mu.Lock()
+		dup := vc6Seen[term]
+		vc6Seen[term] = true
+		mu.Unlock()
+		if dup {
+			rep.Count("same history and answers as an earlier case (not repeated in the Coq run)")
+		} else {
+			small.Add(term)
+		}
 	} else if len(exp) <= 64 {
 		big.Add(vc6CoqBig(cst, j.run, obs))
 	} else {
@@ -933,7 +970,7 @@ func vc6RealJobs(rng *vh.Rng, c vc6Consts, part string) [][]vc6Job {
 		}
 		h := make([]vc6Push, n)
 		for j := range h {
-			h[j] = vc6P(j+1, uint64(1+j/3), []int{1})
+			h[j] = vc6P(j+1, uint64(1+j/400), []int{1})
 		}
 		passes[i%3] = append(passes[i%3], mk(h, 0, "single-address"))
 		if vh.Thorough() {
@@ -959,8 +996,8 @@ func vc6RealJobs(rng *vh.Rng, c vc6Consts, part string) [][]vc6Job {
 			total += x
 		}
 		var h []vc6Push
-		for id := 1; id <= total; id++ {
-			// pick an address with pushes left, weighted by what is left
+		for id := 1; id <= total; {
+			// pick an address with pushes left, weighted by what is left; push a short run for it
 			x := rng.Intn(total - (id - 1))
 			k := 0
 			for ; k < len(left); k++ {
@@ -969,12 +1006,20 @@ func vc6RealJobs(rng *vh.Rng, c vc6Consts, part string) [][]vc6Job {
 				}
 				x -= left[k]
 			}
-			left[k]--
+			run := 1 + rng.Intn(40)
+			if rng.Intn(4) == 0 {
+				run = 1
+			}
 			keys := []int{k + 1}
 			if i == 2 && rng.Intn(4) == 0 { // the same address twice in one push: recorded once
 				keys = append(keys, k+1)
 			}
-			h = append(h, vc6P(id, uint64(1+id/2), keys))
+			slot := uint64(1 + id/2)
+			for ; run > 0 && left[k] > 0; run-- {
+				left[k]--
+				h = append(h, vc6P(id, slot, keys))
+				id++
+			}
 		}
 		passes[i%3] = append(passes[i%3], mk(h, []int{0, 3, 1}[i%3], "interleaved"))
 	}
@@ -983,10 +1028,10 @@ func vc6RealJobs(rng *vh.Rng, c vc6Consts, part string) [][]vc6Job {
 		var h []vc6Push
 		for id := 1; id <= 2*B+1; id++ {
 			keys := []int{1}
-			if id%2 == 0 || id > 2*B-3 {
+			if (id/25)%2 == 0 || id > 2*B-3 {
 				keys = []int{2, 1, 2}
 			}
-			h = append(h, vc6P(id, uint64(id), keys))
+			h = append(h, vc6P(id, uint64(1+id/100), keys))
 		}
 		passes[0] = append(passes[0], mk(h, 0, "multi-address-push"))
 	}
